@@ -516,16 +516,18 @@ def gen_fn(fn, g, canary=False):
             raise LostAnchor('%s: hint anchor %s: no call found' % (fn.key, anchor))
     # text anchors: after-text:<statement text> / before-text:<statement text> (first occurrence in the body)
     for anchor, htext in fn.hints.items():
-        m = re.match(r'^(before|after)-text:(.+)$', anchor, re.S)
+        m = re.match(r'^(before|after)-text(-all)?:(.+)$', anchor, re.S)
         if not m:
             continue
-        p = body.find(m.group(2))
+        p = body.find(m.group(3))
         if p < 0:
             raise LostAnchor('%s: hint anchor %s: text not found' % (fn.key, anchor))
-        if m.group(1) == 'before':
-            inserts.append((p, _hint_text(htext) + '\n'))
-        else:
-            inserts.append((p + len(m.group(2)), _hint_text(htext)))
+        while p >= 0:
+            if m.group(1) == 'before':
+                inserts.append((p, _hint_text(htext) + '\n'))
+            else:
+                inserts.append((p + len(m.group(3)), _hint_text(htext)))
+            p = body.find(m.group(3), p + 1) if m.group(2) else -1
     eds = [(p, p, t) for p, t in inserts]
     # stable order for same position: keep list order
     eds_sorted = sorted(range(len(eds)), key=lambda i: (eds[i][0], i))
